@@ -61,3 +61,24 @@ Print Assumptions C08_source_disciplined.
 Example C08_f9_rejected :
   lockset_ok [("uhppote.ut0311.Broadcast", "replies", [("go1", "w", [], 86%nat); ("go1", "r", [], 86%nat); ("parent", "r", [], 96%nat)])] = false.
 Proof. exact f9_rejected. Qed.
+
+(* ---- what concurrent calls can share at all: the process-wide state of the library ---- *)
+From UV Require Import Gen.SharedState.
+
+(* what the decision procedure establishes for a list of package-level variables it accepts: none of them is written after
+   initialisation, and each is of a form that is immutable once built or documented safe for concurrent use *)
+Theorem C08_shared_ok_spec : forall l, shared_ok l = true ->
+  forall p n k w, In (p, n, k, w) l -> w = 0%nat /\ In k benign_kinds.
+Proof. exact shared_ok_spec. Qed.
+Print Assumptions C08_shared_ok_spec.
+
+(* GENERATED-DATA OBLIGATION, re-checked against the source on every run: the package-level variables of types/, encoding/,
+   messages/ and uhppote/ are the bind-port mutex, compiled regular expressions, reflect.Type values, error values, one
+   time value and the two dispatch tables, none of them written after initialisation - concurrent calls share no mutable
+   memory except through the mutex (a buffer pool, a memo table or a cache added at package level falsifies this) *)
+Theorem C08_shared_state_benign : shared_ok shared_state = true.
+Proof. exact shared_state_benign. Qed.
+Print Assumptions C08_shared_state_benign.
+
+Example C08_pool_rejected : shared_ok [("uhppote", "buffers", "composite:sync.Pool", 0%nat)] = false.
+Proof. exact pool_rejected. Qed.
